@@ -47,6 +47,7 @@ ANGLE_STRATA = [
     ("low", lambda r: 10.0 ** r.uniform(-6, -1)),
     ("generic", lambda r: r.uniform(0.1, 3.0)),
     ("near-pi", lambda r: math.pi - 10.0 ** r.uniform(-9, -2)),
+    ("near-pi6", lambda r: math.pi - 10.0 ** r.uniform(-6, -2)),     # "up to pi - 1e-6" (C05/C06)
     ("pi", lambda r: math.pi),
     ("beyond-pi", lambda r: r.uniform(math.pi, 4 * math.pi)),
     ("near-2pi", lambda r: 2 * math.pi - 10.0 ** r.uniform(-9, -2)),
